@@ -841,7 +841,19 @@ where
     );
     let mut k = T::one();
 
-    while !all_real::<B, T>(ulogp_prime.clone()) && !all_real::<B, T>(grad_prime.clone()) {
+    // Both searches below are bounded: where no step size gives an acceptable trial point (a
+    // start point whose gradient is not finite, or one on the boundary of the support with the
+    // momentum pointing outwards) halving would otherwise go on for ever or underflow to a
+    // step size of exactly zero, and with a zero (or absurdly small) step size a transition
+    // never ends. A search that exhausts its budget falls back to the initial guess 1; the
+    // dual averaging takes it from there.
+    const MAX_SEARCH_STEPS: usize = 64;
+    let mut halvings = 0;
+    while !all_real::<B, T>(ulogp_prime.clone())
+        && !all_real::<B, T>(grad_prime.clone())
+        && halvings < MAX_SEARCH_STEPS
+    {
+        halvings += 1;
         k = k * half;
         (_, mom_prime, _, ulogp_prime) = leapfrog(
             position.clone(),
@@ -864,7 +876,15 @@ where
         -T::one()
     };
 
+    if halvings == MAX_SEARCH_STEPS {
+        return T::one();
+    }
+    let mut search_steps = 0;
     while a * log_accept_prob > -a * T::from(2.0).unwrap().ln() {
+        if search_steps == MAX_SEARCH_STEPS {
+            return T::one();
+        }
+        search_steps += 1;
         epsilon = epsilon * T::from(2.0).unwrap().powf(a);
         (_, mom_prime, _, ulogp_prime) = leapfrog(
             position.clone(),
